@@ -176,6 +176,19 @@ def describe_cond(F, b, a, s):
                         res.add(describe_cond(F, b, pa, ps))
                 if len(res) == 1:
                     return res.pop()
+    # a test first stored in a bool (`let keeps = !x.is_disposable(); if keeps {..}`): follow the copy / negation chain
+    want = [v for v, to in arms.items() if to == s]
+    truth = 0 if want == [0] else (1 if (s == t['otherwise'] and s not in arms.values()) else None)
+    def classify(op, tr, depth=0):
+        if depth > 6 or op.get('o') not in ('copy', 'move'): return None
+        oo = D.origin(op)
+        if oo[0] == 'call' and callee_is(F, oo[2], 'PictureTypeCode::is_disposable') and is_header_type(D.origin(oo[2]['args'][0])): return ('is_disposable', bool(tr))
+        if oo[0] == 'rv' and oo[2]['rv']['r'] == 'un' and oo[2]['rv'].get('op') == 'Not': return classify(oo[2]['rv']['a'], 1 - tr, depth + 1)
+        if oo[0] == 'rv' and oo[2]['rv']['r'] == 'use': return classify(oo[2]['rv']['a'], tr, depth + 1)
+        return None
+    if truth is not None:
+        c_ = classify(t['on'], truth)
+        if c_ is not None: return c_
     return ('unknown', 'switch at bb%d' % a)
 
 
